@@ -43,6 +43,10 @@ def _plan(draw, max_rows):
         # float keys must stay distinct (no common-dtype promotion of the key tuple)
         fp = draw(gen.frame_plan(kinds=["i", "f", "i", "i8", "u8"], max_rows=max_rows, max_cols=3, min_cols=2,
                                  prefix="c", mode="tight"))
+        if draw(st.booleans()):
+            # the sharpest form: an int64 key next to a float key
+            fp["cols"][0]["kind"], fp["cols"][0]["vals"] = "i", draw(gen.values("i", fp["n"], mode="tight"))
+            fp["cols"][1]["kind"], fp["cols"][1]["vals"] = "f", draw(gen.values("f", fp["n"], mode="tight"))
         for c in fp["cols"]:
             if c["kind"] == "f":
                 c["vals"] = [1.0 if v != v else v for v in c["vals"]]
@@ -102,6 +106,8 @@ def _plan(draw, max_rows):
     elif name == "unique":
         k = draw(st.integers(0, min(3, len(cols))))
         op["cols"] = [cols[j]["name"] for j in draw(st.permutations(range(len(cols))))[:k]]
+        if special == 0 and draw(st.integers(0, 2)):
+            op["cols"] = [c["name"] for c in cols]
     plan = {"frame": fp, "op": op}
     # how the receiver came to be, a module-level default, and whether the call is made twice
     plan["receiver"] = draw(st.sampled_from(["built", "built", "shallow_copy", "deep_copy", "view_rows", "derived"]))
